@@ -24,9 +24,11 @@ What each definition mirrors (line numbers of `/repo` HEAD):
             raises while formatting its log line for an error message that carries data (they all do), `read()`'s handler
             raises again while formatting *its* log line (:947-949), the exception leaves `read()` and the task closes the
             connection (:1150-1187).  The model assumes every ofp_error carries data.
-The theorems of Properties/C09.lean are about `Cfg.rv v` for both values of `v`; the `…_defect` witnesses are about `Cfg.head`.
+All six repairs are committed in /repo, which therefore is `Cfg.repaired`.  The headline theorems of Properties/C09.lean are about it, the `_v`
+theorems about `Cfg.rv v` for both values of `v`; the regression witnesses are about `Cfg.without5` and `Cfg.head`.
 
-Not modelled: listeners that re-enter (halt an event, disconnect or send from inside a handler), a custom
+Not modelled here: listeners that re-enter (Model/ConnL.lean adds those that send / sendToDPID / disconnect; halting an event is nowhere), the handshake
+features-reply handler's version check (dead behind `read()`'s own version check), a custom
 OpenFlowConnectionArbiter (the default one always answers `core.openflow`), message types other than the eight of `Msg`,
 multi-part stats replies (C17), framing (C02), xid wrap-around after 2^31-1 messages, the DeferredSender (stubbed: C20).
 Core only; total functions; the model itself has no recursion except `List.foldl`/`List.flatMap`, the history observers at the end recurse structurally on the trace. -/
@@ -40,11 +42,12 @@ structure Cfg where
   fixDpid : Bool
   deriving DecidableEq, Repr
 
-/-- the code with the four committed repairs; `v` says whether fixes/C09-5_features_reply_new_dpid.diff is applied too -/
+/-- the code with the repairs D03, C09-1, C09-2, C09-3; `v` says whether C09-5 (fixes/C09-5_features_reply_new_dpid.diff) is in too.
+    `/repo` has all of them: it is `Cfg.rv true = Cfg.repaired`. -/
 def Cfg.rv (v : Bool) : Cfg := ⟨true, true, true, true, v⟩
 def Cfg.repaired : Cfg := Cfg.rv true
-/-- /repo as it stands while C09-5 is an open finding -/
-def Cfg.current : Cfg := Cfg.rv false
+/-- the tree with the commit of C09-5 reverted (regression witnesses; the check still ties to such a tree) -/
+def Cfg.without5 : Cfg := Cfg.rv false
 def Cfg.head : Cfg := ⟨false, false, false, false, false⟩
 
 /-- messages from the switch (the tag `n` of port_status / packet_in is the message's xid, used only to tell messages apart) -/
